@@ -10,24 +10,51 @@ What this check does
  2. Mode A: every instance TLC emits is replayed into the real code
         properties.find_ND_labels, pks_table.find_uniq (numba and scipy routes),
         pks_table.pk2dmerge (with / without scale_factor), pks_table.pk2d
-    at numba thread counts 1, 2, 4, 8, 16 - individually and as disjoint unions (two edge layouts) -
-    and judged by the property statement against the specification's values.
+    - individually and as disjoint unions (two edge layouts) - and judged by the property statement
+    against the specification's values,
+    at numba thread counts 1, 2, 3, 4, 5, 7, 8, 12, 16 (non powers of two give uneven prange chunks).
  3. Seeded large graphs (chains needing many sweeps, stars, duplicates, self loops, no edges, random,
     sinogram-like) against an independent union-find and scipy, merged table against exact integers.
+    merge_race: >= 1e5 2D peaks in a few interleaved stars, merged repeatedly at every thread count
+    (a merge loop split over threads loses updates only when many members of one merged peak sit in
+    different threads' slices; LabelND Bug = "pmerge" is the model of that change).
  4. Mode C: per-sweep snapshots recorded from the real find_ND_labels (module-level numbalabelNd /
     get_clean_labels wrapped from the harness) validated by LabelND_Trace.
+ 5. Table histories (LabelND Hist = 2, configuration hist): every emitted (instance, history) is
+    replayed on a table built the way process() / goforit() build it - pks_table(npk) in shared memory,
+    filled through pks_table.fromSHM(export()) per scan, overlap weights != 1 - with the operations
+    find_uniq() again, find_uniq(use_scipy=True) (int32 labels, scipy's numbering), save() +
+    pks_table.load() or + dataset.DataSet.peaks_table / pk2d / pk4d (scale = monitor_ref / monitor),
+    pk2dmerge again; after EVERY operation the labels the table holds and the merged / 2D tables
+    computed from them are judged.  The seeded families run two such histories as well.
+ 6. Harness-only families where the model is covariant (said so in the LabelND header): table value
+    classes (sI to 1e9, monitor-style non-dyadic scale factors, scale = 0, Fortran-ordered / float32 /
+    strided omega, dty, scale) judged against exact integer arithmetic on the binary values of the
+    inputs; thread counts above NUMBA_NUM_THREADS (17, 24, 32) and the workqueue threading layer in
+    child processes (tbb when importable).
+ 7. The literal user route in a child process: properties.main(dsfile) on small synthetic sinograms
+    (sparse-pixel file + dataset file written with h5py / DataSet.save): goforit() -> worker processes
+    running process() -> pks_table(npk) in shared memory -> find_uniq() -> save(); single-scan branch
+    pks_table_from_scan; then dataset.load(dsfile).pk2d / .pk4d with and without monitor.  The overlap
+    list is taken as the code produced it (captured when save() is entered; producing it is C13 / C14).
+ 8. Peaks without any overlap through pks_table(npk): finding C15-shm-empty-overlap-list (reported as a
+    violation unless that entry is in known_findings.json; matcher in probe_empty).
+ Outside the quantifier, recorded under notes["observations"] only: n = 0 (a graph has nodes; the
+ shared-memory constructor cannot build an empty table at all), load() of a table saved before labelling.
 """
 from __future__ import print_function
-import os, sys, io, json, time, contextlib, copy
+import os, sys, io, json, time, contextlib, copy, subprocess, warnings, gc
 import numpy as np
 import common
 import c15_lib as L
 
 PROP = "C15"
 WORKERS = int(os.environ.get("C15_TLC_WORKERS", "16"))
-THREADS = (1, 2, 4, 8, 16)
+THREADS = (1, 2, 3, 4, 5, 7, 8, 12, 16)
+F_SHM = "C15-shm-empty-overlap-list"
 ACTIONS = ("Grab", "Read1", "Read2", "Write1", "Write2", "EndSweep", "CountStep", "CountEnd",
            "FixGrab", "FixRead", "FixRead2", "FixWrite", "FixEnd", "Merge")
+HIST_ACTIONS = ("RelabelNumba", "RelabelScipy", "SaveLoad", "Remerge")
 SAFETY_INV = ("TypeOK", "InComp", "MinFixed", "LocalsOK", "ZeroAgree", "Fixpoint", "FixReadsRoot",
               "CleanOK", "MergeOK", "SweepLegal", "SeqExact")
 
@@ -41,8 +68,10 @@ def load_real():
         common.use_shadow(shadow)
         import numba
         import ImageD11.sinograms.properties as P
+        import ImageD11.sinograms.dataset as D
         _real["numba"] = numba
         _real["P"] = P
+        _real["D"] = D
         install_watchdog(P)
         _real["threads"] = [t for t in THREADS if t <= numba.config.NUMBA_NUM_THREADS]
     return _real["numba"], _real["P"], _real["threads"]
@@ -112,13 +141,13 @@ def cfgpath(name):
     return os.path.join(common.SPECS, "LabelND_%s.cfg" % name)
 
 
-def tlc(chk, name, timeout, coverage=False, expect=None, workers=None):
+def tlc(chk, name, timeout, coverage=False, expect=None, workers=None, cover=None):
     """run one static configuration.  expect = None: no violation allowed;
     expect = tuple of names: one of them must be reported violated (self-test / witness runs)."""
     res = common.run_tlc("LabelND", cfgpath(name), workers=workers or WORKERS, coverage=coverage,
                          timeout=timeout)
     if chk is not None:
-        chk.add_tlc("LabelND_" + name, res, require_cover=ACTIONS if coverage else ())
+        chk.add_tlc("LabelND_" + name, res, require_cover=(cover or ACTIONS) if coverage else ())
     elif res.error and not res.violated:
         raise common.MachineryError("TLC run %s failed: %s\n%s" % (name, res.error, res.stdout[-2000:]))
     if expect is None:
@@ -185,8 +214,9 @@ def make_pks_table(P, n, ei, ej, table):
     return P.pks_table(ipk=np.array([0, n], dtype=np.int64), pk_props=table.props.copy(), rc=rc)
 
 
-def observe(P, n, ei, ej, table, direct=True, scipy_route=True, merge=True):
-    """call the real API; returns dict of raw outputs (exceptions are outputs too)"""
+def observe(P, n, ei, ej, table, direct=True, scipy_route=True, merge=True, merge_reps=1):
+    """call the real API; returns dict of raw outputs (exceptions are outputs too).
+    merge_reps > 1: pk2dmerge is called again that many times (keys merge_u#k / merge_s#k)"""
     obs = {}
     ei = np.ascontiguousarray(ei, np.int64)
     ej = np.ascontiguousarray(ej, np.int64)
@@ -204,10 +234,14 @@ def observe(P, n, ei, ej, table, direct=True, scipy_route=True, merge=True):
         obs["attrs"] = (int(t.nlabel), np.array(t.glabel))
         if merge:
             om, dy, sc = table.omega(), table.dty(), table.scale()
-            obs["merge_u"] = t.pk2dmerge(om, dy)
-            obs["merge_s"] = t.pk2dmerge(om, dy, scale_factor=sc)
-            obs["pk2d_u"] = t.pk2d(om, dy)
-            obs["pk2d_s"] = t.pk2d(om, dy, scale_factor=sc)
+            with np.errstate(all="ignore"):
+                obs["merge_u"] = t.pk2dmerge(om, dy)
+                obs["merge_s"] = t.pk2dmerge(om, dy, scale_factor=sc)
+                obs["pk2d_u"] = t.pk2d(om, dy)
+                obs["pk2d_s"] = t.pk2d(om, dy, scale_factor=sc)
+                for k in range(1, merge_reps):
+                    obs["merge_u#%d" % k] = t.pk2dmerge(om, dy)
+                    obs["merge_s#%d" % k] = t.pk2dmerge(om, dy, scale_factor=sc)
     except Exception as e:
         obs["table_exc"] = repr(e)
     if scipy_route:
@@ -216,6 +250,13 @@ def observe(P, n, ei, ej, table, direct=True, scipy_route=True, merge=True):
             with quiet():
                 cc = t2.find_uniq(use_scipy=True)
             obs["scipy"] = (int(cc[0]), np.array(cc[1]))
+            if merge:
+                # a table labelled ONLY by the scipy route (int32 labels) is merged as well
+                obs["attrs@scipy"] = (int(t2.nlabel), np.array(t2.glabel))
+                om, dy, sc = table.omega(), table.dty(), table.scale()
+                with np.errstate(all="ignore"):
+                    obs["merge_s@scipy"] = t2.pk2dmerge(om, dy, scale_factor=sc)
+                    obs["pk2d_s@scipy"] = t2.pk2d(om, dy, scale_factor=sc)
         except Exception as e:
             obs["scipy_exc"] = repr(e)
     return obs
@@ -246,14 +287,25 @@ def judge(n, root, table, obs, stats=None, spec=None):
             valid = (nl, np.asarray(lab, np.int64))
     if valid is not None:
         nl, lab = valid
-        for key, scaled in (("merge_u", False), ("merge_s", True)):
-            if key in obs:
-                problems += L.judge_merge(table, lab, nl, scaled, obs[key])
+        for key in sorted(obs):
+            if key.startswith("merge_") and "@" not in key and len(problems) < 5:
+                problems += L.judge_merge(table, lab, nl, key.startswith("merge_s"), obs[key])
         for key, scaled in (("pk2d_u", False), ("pk2d_s", True)):
             if key in obs:
                 problems += L.judge_pk2d(table, lab, scaled, obs[key])
         if spec is not None and "merge_u" in obs and not problems:
             problems += judge_spec_rows(spec, lab, obs)
+    if "attrs@scipy" in obs:
+        nl, lab = obs["attrs@scipy"]
+        pr, _ = L.judge_labels(n, root, nl, lab)
+        if not pr and (nl != obs["scipy"][0] or not np.array_equal(lab, obs["scipy"][1])):
+            pr = ["the table does not hold the labels find_uniq(use_scipy=True) returned"]
+        if not pr:
+            pr = L.judge_merge(table, np.asarray(lab, np.int64), nl, True, obs["merge_s@scipy"])
+            pr += L.judge_pk2d(table, lab, True, obs["pk2d_s@scipy"])
+            if stats is not None:
+                stats["merged_after_scipy_only"] = stats.get("merged_after_scipy_only", 0) + 1
+        problems += ["after find_uniq(use_scipy=True) alone: %s" % x for x in pr]
     return problems
 
 
@@ -279,6 +331,212 @@ def judge_spec_rows(spec, lab, obs):
     return out
 
 
+
+# --------------------------------------------------------------------------------------
+# the user route and table histories
+
+_tmpcount = [0]
+
+
+def tmp_h5():
+    _tmpcount[0] += 1
+    return os.path.join(common.scratch(), "c15_tbl_%d_%d.h5" % (os.getpid(), _tmpcount[0]))
+
+
+@contextlib.contextmanager
+def hush():
+    """stdout of tictoc / find_ND_labels, numpy 0/0 warnings, 'Exception ignored in __del__' lines"""
+    old = sys.unraisablehook
+    sys.unraisablehook = lambda *a: None
+    try:
+        with contextlib.redirect_stdout(io.StringIO()), np.errstate(all="ignore"), warnings.catch_warnings():
+            warnings.simplefilter("ignore")
+            try:
+                yield
+            finally:
+                if sys.exc_info()[0] is not None:
+                    gc.collect()          # half-built tables die here, not later on the terminal
+    finally:
+        sys.unraisablehook = old
+
+
+def overlap_weights(ne, sd):
+    """rc[2] = number of shared pixels of each overlapping pair (any positive number: labels do not depend on it)"""
+    return np.random.default_rng([int(sd), int(ne), 77]).integers(1, 10, ne).astype(np.int64)
+
+
+def make_npk_table(P, n, ei, ej, table, sd, stats=None):
+    """the table the way goforit() / process() build it: pks_table(npk) allocates ipk, rpk, pk_props, rc
+    in shared memory; a worker attaches with fromSHM(export()) and fills its scans' slices.
+    Raises whatever the code raises."""
+    ne = len(ei)
+    npk = L.split_scans(n, ne, sd)
+    mem = P.pks_table(npk=npk)
+    w = P.pks_table.fromSHM(mem.export())
+    for i in range(len(npk)):
+        a, b = int(w.ipk[i]), int(w.ipk[i + 1])
+        w.pk_props[:, a:b] = table.props[:, a:b]
+        a, b = int(w.rpk[i]), int(w.rpk[i + 1])
+        w.rc[0, a:b] = ei[a:b]
+        w.rc[1, a:b] = ej[a:b]
+        w.rc[2, a:b] = overlap_weights(ne, sd)[a:b]
+    del w
+    if stats is not None:
+        stats["npk_route_tables"] = stats.get("npk_route_tables", 0) + 1
+        stats["npk_route_scans_max"] = max(stats.get("npk_route_scans_max", 0), len(npk))
+    return mem
+
+
+def make_route_table(P, n, ei, ej, table, sd, stats=None):
+    """npk route; when the overlap list is empty the shared-memory constructor cannot allocate it
+    (reported once by probe_empty): fall back to the ipk constructor + the npk attribute save() needs"""
+    ei = np.ascontiguousarray(ei, np.int64)
+    ej = np.ascontiguousarray(ej, np.int64)
+    if len(ei) > 0:
+        return make_npk_table(P, n, ei, ej, table, sd, stats)
+    with hush():
+        try:
+            return make_npk_table(P, n, ei, ej, table, sd, stats)
+        except ValueError:
+            pass
+        gc.collect()
+    if stats is not None:
+        stats["npk_route_fallback_no_edges"] = stats.get("npk_route_fallback_no_edges", 0) + 1
+    t = make_pks_table(P, n, ei, ej, table)
+    t.npk = np.array([(n, 0, 0)], np.int64)
+    return t
+
+
+def copy_dict(d):
+    return {k: np.array(v) for k, v in d.items()}       # pk2d returns views of the (shared) table
+
+
+def monitor_of(table):
+    """(monitor, monitor_ref) for the dataset route: scale_factor = monitor_ref / monitor"""
+    if getattr(table, "monitor", None) is not None:
+        return table.monitor
+    with np.errstate(all="ignore"):
+        return 1.0 / np.asarray(table.scale(), np.float64), 1.0
+
+
+def stage_obs(t, table, name):
+    om, dy, sc = table.omega(), table.dty(), table.scale()
+    st = {"name": name, "attrs": (int(t.nlabel), np.array(t.glabel))}
+    st["merge_u"] = copy_dict(t.pk2dmerge(om, dy))
+    st["merge_s"] = copy_dict(t.pk2dmerge(om, dy, scale_factor=sc))
+    st["pk2d_u"] = copy_dict(t.pk2d(om, dy))
+    st["pk2d_s"] = copy_dict(t.pk2d(om, dy, scale_factor=sc))
+    return st
+
+
+def dataset_stage(D, path, table, name):
+    """dataset.py:818-846: peaks_table -> pks_table.load(pksfile); pk2d / pk4d with and without monitor"""
+    def mk(scaled):
+        ds = D.DataSet()
+        ds.pksfile = path
+        ds.omega_for_bins = table.omega()
+        ds.dty = table.dty()
+        if scaled:
+            ds.monitor, ds.monitor_ref = monitor_of(table)
+        return ds
+    dsu, dss = mk(False), mk(True)
+    t = dsu.peaks_table
+    st = {"name": name, "attrs": (int(t.nlabel), np.array(t.glabel)),
+          "merge_u": copy_dict(dsu.pk4d), "merge_s": copy_dict(dss.pk4d),
+          "pk2d_u": copy_dict(dsu.pk2d), "pk2d_s": copy_dict(dss.pk2d)}
+    return st, t
+
+
+def observe_hist(n, ei, ej, table, hist, sd=0, via_dataset=False, stats=None):
+    """build the table by the user route, label it (numba), then apply the operations of hist; the
+    table is observed after the first labelling and after every operation.  Returns {"stages": [...]}
+    (+ "exc" when something raised: what had been observed until then is still judged)"""
+    numba, P, threads = load_real()
+    D = _real["D"]
+    stages = []
+    out = {"stages": stages}
+    done = []
+    t = None
+    try:
+        with hush():
+            t = make_route_table(P, n, ei, ej, table, sd, stats)
+            cc = t.find_uniq()
+            stages.append(stage_obs(t, table, "find_uniq"))
+            stages[-1]["returned"] = (int(cc[0]), np.array(cc[1]))
+            for op in hist:
+                done.append(op)
+                cc = None
+                if op == "numba":
+                    cc = t.find_uniq()
+                elif op == "scipy":
+                    cc = t.find_uniq(use_scipy=True)
+                elif op == "saveload":
+                    path = tmp_h5()
+                    try:
+                        t.save(path)
+                        if via_dataset:
+                            st, t = dataset_stage(D, path, table, "+".join(["find_uniq"] + done) + " (dataset)")
+                            stages.append(st)
+                            continue
+                        t = P.pks_table.load(path)
+                    finally:
+                        if os.path.exists(path):
+                            os.remove(path)
+                elif op != "merge":
+                    raise common.MachineryError("unknown table operation %r" % (op,))
+                stages.append(stage_obs(t, table, "+".join(["find_uniq"] + done)))
+                if cc is not None:
+                    stages[-1]["returned"] = (int(cc[0]), np.array(cc[1]))
+    except common.MachineryError:
+        raise
+    except Exception as e:
+        out["exc"] = "%s raised %r" % ("+".join(done) or "find_uniq", e)
+    finally:
+        with hush():
+            del t
+    return out
+
+
+def judge_stages(n, root, table, obs, stats=None, spec=None):
+    """every stage: the labels the table holds are a valid labelling of the components; the merged and
+    2D tables are the exact sums / means by THOSE labels; (TLC record) the rows of every component are
+    the specification's"""
+    problems = []
+    if "exc" in obs:
+        problems.append(obs["exc"])
+    for st in obs["stages"]:
+        nl, lab = st["attrs"]
+        pr, renum = L.judge_labels(n, root, nl, lab)
+        if not pr and "returned" in st:
+            # what find_uniq returned is what the table holds (pk2d's spot3d_id, pk2dmerge's rows refer to it)
+            rn, rl = st["returned"]
+            if rn != nl or not np.array_equal(np.asarray(rl), np.asarray(lab)):
+                pr = ["find_uniq returned a labelling (%d labels) that is not the one the table holds "
+                      "(nlabel=%d): pk2d / pk2dmerge refer to other labels than the caller got" % (rn, nl)]
+        if pr:
+            problems += ["after %s: %s" % (st["name"], p) for p in pr]
+            continue
+        last = ([o for o in st["name"].replace(" (dataset)", "").split("+") if o in ("find_uniq", "numba", "scipy")]
+                or ["find_uniq"])[-1]
+        if stats is not None:
+            stats["stages_judged"] = stats.get("stages_judged", 0) + 1
+            if np.asarray(lab).dtype == np.int32:
+                stats["stages_with_int32_labels"] = stats.get("stages_with_int32_labels", 0) + 1
+            if renum:
+                stats["stages_renumbered"] = stats.get("stages_renumbered", 0) + 1
+                if last != "scipy":
+                    stats["renumbered"] = stats.get("renumbered", 0) + 1
+        lab = np.asarray(lab, np.int64)
+        pr = []
+        for key, scaled in (("merge_u", False), ("merge_s", True)):
+            pr += L.judge_merge(table, lab, nl, scaled, st[key])
+        for key, scaled in (("pk2d_u", False), ("pk2d_s", True)):
+            pr += L.judge_pk2d(table, st["attrs"][1], scaled, st[key])
+        if spec is not None and not pr:
+            pr += judge_spec_rows(spec, lab, st)
+        problems += ["after %s: %s" % (st["name"], p) for p in pr]
+    return problems
+
 # --------------------------------------------------------------------------------------
 # replayable cases
 
@@ -288,6 +546,11 @@ def run_case(case):
     kind = case["kind"]
     if kind == "trace":
         return run_trace_case(case)
+    if kind == "probe":
+        return probe_empty(None, {}, replay=True)
+    if kind == "child":
+        res = run_child(case["job"])
+        return list(res.get("problems", []))
     if kind == "graph":
         n = int(case["n"])
         ei = np.array(case["ei"], np.int64)
@@ -303,14 +566,21 @@ def run_case(case):
     root = L.roots_unionfind(n, ei, ej)
     if spec is not None and list(map(int, root)) != spec["cmin"]:
         return ["specification cmin differs from the union-find oracle (harness/spec error)"]
+    if case.get("vtable"):
+        table = L.make_vtable(case["vtable"][0], n, case["seed"], root, case["vtable"][1])
     probs = []
     for t in case.get("threads", threads):
         if t > numba.config.NUMBA_NUM_THREADS:
             continue
         with numba_threads(numba, t):
             for rep in range(int(case.get("reps", 1))):
-                obs = observe(P, n, ei, ej, table)
-                pr = judge(n, root, table, obs, spec=spec)
+                if case.get("hist") is not None:
+                    obs = observe_hist(n, ei, ej, table, case["hist"], case.get("seed", 0),
+                                       via_dataset=bool(case.get("via_dataset")))
+                    pr = judge_stages(n, root, table, obs, spec=spec)
+                else:
+                    obs = observe(P, n, ei, ej, table, merge_reps=int(case.get("merge_reps", 1)))
+                    pr = judge(n, root, table, obs, spec=spec)
                 if pr:
                     probs += ["threads=%d: %s" % (t, p) for p in pr]
                     break
@@ -333,8 +603,8 @@ def replay_records(chk, recs, tier, stats, budget_s):
     nviol = 0
     # (1) every record individually at low thread counts (cheap launches); high thread counts on a
     #     deterministic subsample under a time budget (a parallel region costs ms on a loaded machine)
-    low = [t for t in threads if t <= 4]
-    high = [t for t in threads if t > 4]
+    low = [t for t in threads if t in (1, 2, 4)]
+    high = [t for t in threads if t not in (1, 2, 4)]
     reps = 1 if tier == "quick" else 3
     for t in low:
         with numba_threads(numba, t):
@@ -391,14 +661,9 @@ def replay_records(chk, recs, tier, stats, budget_s):
     # (2) every record at every thread count: disjoint unions (plain and interleaved edge layout)
     ureps = 2 if tier == "quick" else 6
     for interleave in (False, True):
-        n, ei, ej, offs = L.union_of_records(recs, interleave)
-        if n == 0:
+        if not recs:
             continue
-        root = np.concatenate([np.array(r["cmin"], np.int64) + int(offs[k]) for k, r in enumerate(recs)])
-        nl_exp, lab_exp = L.expected_labels(root)
-        props = np.concatenate([np.array(r["props"], np.int64).reshape(5, r["n"]) for r in recs], axis=1)
-        t0 = tables[recs[0]["n"]]
-        table = L.Table(props, t0.shape, t0.om_num, t0.om_den, t0.dty_num, t0.dty_den, t0.sc_num, t0.sc_den)
+        n, ei, ej, offs, root, table = union_instance(recs, interleave)
         for t in threads:
             with numba_threads(numba, t):
                 for rep in range(ureps if t > 1 else 1):
@@ -423,6 +688,16 @@ def replay_records(chk, recs, tier, stats, budget_s):
     stats["replay_wall_s"] = round(time.time() - t_start, 1)
 
 
+def union_instance(recs, interleave):
+    """disjoint union of TLC records with the specification's property table"""
+    n, ei, ej, offs = L.union_of_records(recs, interleave)
+    root = np.concatenate([np.array(r["cmin"], np.int64) + int(offs[k]) for k, r in enumerate(recs)])
+    props = np.concatenate([np.array(r["props"], np.int64).reshape(5, r["n"]) for r in recs], axis=1)
+    t0 = L.table_from_record(recs[0])
+    table = L.Table(props, t0.shape, t0.om_num, t0.om_den, t0.dty_num, t0.dty_den, t0.sc_num, t0.sc_den)
+    return n, ei, ej, offs, root, table
+
+
 def failing_members(recs, offs, root, obs):
     out = []
     for route in ("direct", "find_uniq"):
@@ -438,27 +713,159 @@ def failing_members(recs, offs, root, obs):
     return out
 
 
+
+# --------------------------------------------------------------------------------------
+# mode A, table histories: replay of the records of configuration hist
+
+def parse_hist_records(res):
+    recs, seen, bad = [], set(), 0
+    for s_ in res.printed:
+        try:
+            r = json.loads(s_)
+            key = (r["n"], tuple(r["ei"]), tuple(r["ej"]), tuple(r["hist"]))
+        except Exception:
+            bad += 1
+            continue
+        if key not in seen:
+            seen.add(key)
+            recs.append(r)
+    if bad:
+        raise common.MachineryError("%d unparsable Emit lines in TLC run hist" % bad)
+    recs.sort(key=lambda r: (r["hist"], r["n"], r["ne"], r["ei"], r["ej"]))
+    return recs
+
+
+def union_spec(recs, offs):
+    """the specification's merged rows of a disjoint union: the members' rows, member after member
+    (= order of the component minima of the union)"""
+    cmin, outu, outs = [], [[] for _ in range(7)], [[] for _ in range(7)]
+    for k, r in enumerate(recs):
+        cmin += [c + int(offs[k]) for c in r["cmin"]]
+        for row in range(7):
+            outu[row] += r["outu"][row]
+            outs[row] += r["outs"][row]
+    return {"cmin": cmin, "outu": outu, "outs": outs, "scaleden": recs[0]["scaleden"]}
+
+
+def replay_hist(chk, recs, tier, stats, budget_s):
+    numba, P, threads = load_real()
+    t_start = time.time()
+    recs = [r for r in recs if r["hist"]]
+    rng = np.random.default_rng([common.seed(), 1519])
+    order = rng.permutation(len(recs))
+    tl = [t for t in (1, 3, max(threads)) if t in threads]
+    per_hist = {}
+    tables = {}
+    nviol = 0
+    # (1) every record: per history the disjoint union of all its instances is one table
+    groups = {}
+    for r in recs:
+        groups.setdefault(tuple(r["hist"]), []).append(r)
+    for gi, (hist, grp) in enumerate(sorted(groups.items())):
+        n, ei, ej, offs, root, table = union_instance(grp, interleave=bool(gi % 2))
+        if not np.array_equal(root, L.roots_unionfind(n, ei, ej)):
+            raise common.MachineryError("specification cmin != union-find oracle on the union for %r" % (hist,))
+        uspec = union_spec(grp, offs)
+        for k, via in enumerate((False, True)):
+            t = tl[(gi + k) % min(2, len(tl))]      # 1 and 3 threads: a history adds no parallel code of its own
+            with numba_threads(numba, t):
+                obs = observe_hist(n, ei, ej, table, hist, sd=common.seed() + gi, via_dataset=via, stats=stats)
+            pr = judge_stages(n, root, table, obs, stats, spec=uspec)
+            chk.case(("hist-union", hist, t, len(grp)))
+            if k == 0:
+                chk.traces += len(grp)
+            stats["history_union_runs"] = stats.get("history_union_runs", 0) + 1
+            if pr and nviol < 5:
+                nviol += 1
+                chk.violation("union of the %d TLC instances with history %s, threads=%d%s: %s"
+                              % (len(grp), list(hist), t, " (dataset route)" if via else "", pr[0]),
+                              {"kind": "graph", "n": n, "ei": ei.tolist(), "ej": ej.tolist(), "hist": list(hist),
+                               "via_dataset": via, "seed": common.seed() + gi, "threads": [t], "reps": 2,
+                               "tseed": 0, "problems": pr[:5], "note": "replayed with a seeded table"})
+    if nviol:
+        stats["histories_wall_s"] = round(time.time() - t_start, 1)
+        return
+    # (2) individually, in random order under a time budget
+    for cnt, idx in enumerate(order):
+        if tier == "quick" and time.time() - t_start > budget_s and cnt >= 150:
+            break
+        r = recs[idx]
+        n = r["n"]
+        if n not in tables:
+            tables[n] = L.table_from_record(r)
+        root = np.array(r["cmin"], np.int64)
+        if not np.array_equal(root, L.roots_unionfind(n, r["ei"], r["ej"])):
+            raise common.MachineryError("specification cmin != union-find oracle for %r" % (r,))
+        t = tl[cnt % len(tl)]
+        via = bool((cnt // len(tl)) % 2)
+        with numba_threads(numba, t):
+            obs = observe_hist(n, r["ei"], r["ej"], tables[n], r["hist"], sd=common.seed() + cnt,
+                               via_dataset=via, stats=stats)
+        pr = judge_stages(n, root, tables[n], obs, stats, spec=r)
+        hk = "+".join(r["hist"])
+        per_hist[hk] = per_hist.get(hk, 0) + 1
+        if "saveload" in r["hist"]:
+            stats["saveload_via_dataset" if via else "saveload_via_pks_table_load"] = \
+                stats.get("saveload_via_dataset" if via else "saveload_via_pks_table_load", 0) + 1
+        chk.case(("hist", n, tuple(r["ei"]), tuple(r["ej"]), tuple(r["hist"]), t),
+                 nontrivial=(r["ne"] > 0 and len(set(r["cmin"])) < n))
+        chk.traces += 1
+        if pr and nviol < 5:
+            nviol += 1
+            chk.violation("TLC history n=%d ei=%s ej=%s hist=%s threads=%d%s: %s"
+                          % (n, r["ei"], r["ej"], r["hist"], t, " (dataset route)" if via else "", pr[0]),
+                          {"kind": "graph", "n": n, "ei": r["ei"], "ej": r["ej"], "record": r, "hist": r["hist"],
+                           "via_dataset": via, "seed": common.seed() + cnt, "threads": [t], "reps": 3,
+                           "problems": pr[:5]})
+    stats["histories_replayed"] = per_hist
+    stats["histories_wall_s"] = round(time.time() - t_start, 1)
+    if recs:
+        r = recs[int(order[0])]
+        chk.sample({"tlc_history": {k: r[k] for k in ("n", "ei", "ej", "hist", "outu")},
+                    "route": "pks_table(npk) in shared memory -> fromSHM(export()) fill -> find_uniq -> operations"},
+                   limit=12)
+
 # --------------------------------------------------------------------------------------
 # seeded large instances
 
 def seeded_plan(tier, threads):
-    """(family, n, thread counts).  Many-sweep chains only at low thread counts: every sweep is a
-    parallel region and on a shared machine one region costs milliseconds at 8-16 threads."""
+    """(family, n, thread counts, options).  Many-sweep chains only at low thread counts: every sweep is a
+    parallel region and on a shared machine one region costs milliseconds at 8-16 threads.
+    options: merge_reps (pk2dmerge called that many times per thread count), vtable (value class, layout)"""
     lo = [t for t in threads if t <= 4]
+    lo7 = [t for t in threads if t <= 7]
+    few = sorted(set([threads[0], 5 if 5 in threads else threads[-1], threads[-1]]))
     if tier == "quick":
         big = 200000
-        plan = [("chain_random", 60, threads), ("chain_random", 4000, lo), ("chain_ordered", big, threads),
-                ("chain_forest", big, threads), ("star", big, threads), ("dups_loops", big, threads),
-                ("no_edges", 1000, threads), ("random_sparse", big, threads), ("sinogram", big, threads)]
+        plan = [("chain_random", 60, threads, {}), ("chain_random", 4000, lo7, {}), ("chain_ordered", big, threads, {}),
+                ("chain_forest", big, threads, {}), ("star", big, threads, {}),
+                ("merge_race", 120000, threads, {"merge_reps": 3}),
+                ("dups_loops", big, threads, {}), ("no_edges", 1000, threads, {}), ("no_edges", 1, threads, {}),
+                ("random_sparse", big, threads, {}), ("sinogram", big, threads, {}),
+                ("vclass", 24000, few, {"vtable": ("wide", "mixA")}),
+                ("vclass", 24000, few, {"vtable": ("monitor", "C64")}),
+                ("vclass", 24000, few, {"vtable": ("zero", "mixB")})]
     else:
         big = 1000000
-        plan = [("chain_random", 60, threads), ("chain_random", 200, threads), ("chain_random", 30000, lo),
-                ("chain_random", 100000, [1, 2]), ("chain_ordered", big, threads), ("chain_ordered", 1001, threads),
-                ("chain_forest", big, threads), ("chain_forest", 50000, threads), ("star", big, threads),
-                ("star", 3000, threads), ("dups_loops", big, threads), ("dups_loops", 5000, threads),
-                ("no_edges", big, threads), ("no_edges", 1, threads), ("random_sparse", big, threads),
-                ("random_sparse", 20000, threads), ("sinogram", big, threads), ("sinogram", 30000, threads)]
+        plan = [("chain_random", 60, threads, {}), ("chain_random", 200, threads, {}), ("chain_random", 30000, lo, {}),
+                ("chain_random", 100000, [1, 2], {}), ("chain_ordered", big, threads, {}),
+                ("chain_ordered", 1001, threads, {}),
+                ("chain_forest", big, threads, {}), ("chain_forest", 50000, threads, {}), ("star", big, threads, {}),
+                ("star", 3000, threads, {}), ("merge_race", big, threads, {"merge_reps": 3}),
+                ("merge_race", 120000, threads, {"merge_reps": 6}),
+                ("dups_loops", big, threads, {}), ("dups_loops", 5000, threads, {}),
+                ("no_edges", big, threads, {}), ("no_edges", 1, threads, {}), ("random_sparse", big, threads, {}),
+                ("random_sparse", 20000, threads, {}), ("sinogram", big, threads, {}), ("sinogram", 30000, threads, {})]
+        for kind in ("wide", "monitor", "zero"):
+            for lay in L.LAYOUTS:
+                if kind == "monitor" and lay != "C64":
+                    continue
+                plan.append(("vclass", 24000, few, {"vtable": (kind, lay)}))
+        plan.append(("vclass", 100000, few, {"vtable": ("wide", "C64")}))
     return plan
+
+
+SEEDED_HISTS = (("scipy", "numba", "saveload"), ("scipy", "saveload", "merge"))
 
 
 def seeded(chk, tier, stats):
@@ -466,43 +873,91 @@ def seeded(chk, tier, stats):
     sd = common.seed()
     sweeps_seen = []
     walls = stats.setdefault("seeded_wall_s", {})
-    for fam, n0, tl in seeded_plan(tier, threads):
+    vac = stats.setdefault("value_classes", {})
+    for fam, n0, tl, opt in seeded_plan(tier, threads):
         t_fam = time.time()
         n, ei, ej = L.make_instance(fam, n0, sd)
-        table = L.make_table(n, sd)
         root = L.roots_unionfind(n, ei, ej)
         root2 = L.roots_scipy(n, ei, ej)
         if not np.array_equal(root, root2):
             raise common.MachineryError("oracles disagree (union-find vs scipy) on %s n=%d" % (fam, n))
         ncomp = int((root == np.arange(n)).sum())
+        tag = fam
+        if opt.get("vtable"):
+            table = L.make_vtable(opt["vtable"][0], n, sd, root, opt["vtable"][1])
+            tag = "%s[%s/%s]" % (fam, opt["vtable"][0], opt["vtable"][1])
+            nl_e, lab_e = L.expected_labels(root)
+            ex = L.merged_exact_f(table, lab_e, nl_e, True)
+            sizes = np.bincount(lab_e, minlength=nl_e)
+            v = vac.setdefault(table.kind, {"runs": 0})
+            v.update({"merged_peaks": int(nl_e), "merged_peaks_with_1000_or_more_members": int((sizes >= 1000).sum()),
+                      "merged_peaks_of_total_weight_0_means_not_judged": int(sum(1 for x in ex["num"][1] if x == 0)),
+                      "merged_peaks_with_zero_and_nonzero_scale_members": int(mixed_zero(table, lab_e, nl_e)),
+                      "max_sI": int(table.props[1].max()),
+                      "scale_min_max": [float(np.min(table.scale())), float(np.max(table.scale()))],
+                      "omega": "%s %s" % (table.omega().dtype, layout_name(table.omega())),
+                      "dty": "%s %s" % (table.dty().dtype, layout_name(table.dty())),
+                      "scale": "%s %s" % (table.scale().dtype, layout_name(table.scale()))})
+        else:
+            table = L.make_table(n, sd)
+        case0 = {"kind": "seeded", "family": fam, "n": n0, "seed": sd}
+        if opt.get("vtable"):
+            case0["vtable"] = list(opt["vtable"])
         first = None
+        tl = [t for t in tl if t in threads]
         for t in tl:
-            if t not in threads:
-                continue
+            hist = None
+            if t == tl[0]:
+                hist = SEEDED_HISTS[0]
+            elif t == tl[-1]:
+                hist = SEEDED_HISTS[1]
             with numba_threads(numba, t):
-                obs = observe(P, n, ei, ej, table, direct=(t == tl[0]), scipy_route=(t == tl[0]))
+                obs = observe(P, n, ei, ej, table, direct=(t == tl[0]), scipy_route=(t == tl[0]),
+                              merge_reps=int(opt.get("merge_reps", 1)))
                 cnt = [WD["count"]]
-            pr = judge(n, root, table, obs, stats)
+                pr = judge(n, root, table, obs, stats)
+                case = dict(case0, threads=[t], reps=5, merge_reps=int(opt.get("merge_reps", 1)))
+                if not pr and hist is not None:
+                    via = (t == tl[0])
+                    ho = observe_hist(n, ei, ej, table, hist, sd=sd, via_dataset=via, stats=stats)
+                    pr = judge_stages(n, root, table, ho, stats)
+                    stats["seeded_histories"] = stats.get("seeded_histories", 0) + 1
+                    if pr:
+                        case = dict(case0, threads=[t], reps=2, hist=list(hist), via_dataset=via)
             if "find_uniq" in obs and not pr:
                 if first is None:
                     first = obs["find_uniq"]
                 elif first[0] != obs["find_uniq"][0] or not np.array_equal(first[1], obs["find_uniq"][1]):
                     stats["differs_across_threads"] = stats.get("differs_across_threads", 0) + 1
-            chk.case((fam, n, t), nontrivial=(len(ei) > 0 and ncomp < n))
+            chk.case((tag, n, t), nontrivial=(len(ei) > 0 and ncomp < n))
             chk.traces += 1
             stats["seeded_runs"] += 1
+            if opt.get("vtable"):
+                vac[table.kind]["runs"] += 1
+            if opt.get("merge_reps"):
+                stats["merge_race_merges"] = stats.get("merge_race_merges", 0) + 2 * int(opt["merge_reps"])
             sweeps_seen.append(cnt[0])
             if pr:
-                chk.violation("seeded %s n=%d seed=%d threads=%d: %s" % (fam, n, sd, t, pr[0]),
-                              {"kind": "seeded", "family": fam, "n": n0, "seed": sd, "threads": [t], "reps": 5,
-                               "problems": pr[:5]})
+                chk.violation("seeded %s n=%d seed=%d threads=%d: %s" % (tag, n, sd, t, pr[0]),
+                              dict(case, problems=pr[:5]))
                 break
-        walls["%s/%d" % (fam, n0)] = round(time.time() - t_fam, 1)
+        walls["%s/%d" % (tag, n0)] = round(time.time() - t_fam, 1)
         if len(chk.violations) >= 3:
             stats["seeded_stopped_early"] = True
             break
-        chk.sample({"seeded": fam, "n": n, "edges": int(len(ei)), "components": ncomp, "threads": list(tl)}, limit=8)
+        chk.sample({"seeded": tag, "n": n, "edges": int(len(ei)), "components": ncomp, "threads": list(tl)}, limit=8)
     stats["max_sweeps_in_one_call"] = int(max(sweeps_seen)) if sweeps_seen else 0
+
+
+def layout_name(a):
+    return "C" if a.flags.c_contiguous else ("F" if a.flags.f_contiguous else "strided")
+
+
+def mixed_zero(table, lab, nl):
+    z = np.array([x == 0 for x in table.sc_i])[table.props[4]]
+    nz = np.bincount(lab, weights=z.astype(float), minlength=nl)
+    sz = np.bincount(lab, minlength=nl)
+    return int(((nz > 0) & (nz < sz)).sum())
 
 
 # --------------------------------------------------------------------------------------
@@ -615,7 +1070,7 @@ def mode_c(chk, tier, recs_seq, recs_tree, stats):
     traces = []
     unobservable = 0
     for k, (n, ei, ej, origin) in enumerate(inst):
-        for t in tl:
+        for t in tl + ([3] if (origin != "tlc" and 3 in threads and 3 not in tl) else []):
             tr, ok = record_trace(P, numba, len(traces) + 1, n, ei, ej, t)
             tr["origin"] = origin
             if not ok:
@@ -711,6 +1166,387 @@ def run_trace_case(case):
     return probs
 
 
+
+# --------------------------------------------------------------------------------------
+# empty overlap list through the user route (finding) ; n = 0 (observation)
+
+def probe_empty(chk, stats, replay=False):
+    """Peaks without any overlap ("no edges" of the quantifier) through the constructor goforit() uses:
+    pks_table(npk) must give a table that labels every peak on its own.  The same graph through the
+    ipk constructor is the control.  Returns the list of problems (replay) / reports them (chk)."""
+    numba, P, threads = load_real()
+    out = []
+    e = np.zeros(0, np.int64)
+    for n in (1, 3):
+        table = L.make_table(n, 5)
+        root = np.arange(n)
+        with hush():
+            t = make_pks_table(P, n, e, e, table)
+            cc = t.find_uniq()
+        control_ok = not L.judge_labels(n, root, cc[0], cc[1])[0]
+        what, structural, st = None, False, None
+        with hush():
+            try:
+                t = make_npk_table(P, n, e, e, table, 0)
+                t.find_uniq()
+                st = stage_obs(t, table, "find_uniq")
+            except Exception as ex:
+                what = "pks_table(npk=[(%d, 0, 0)]) raised %r" % (n, ex)
+                # structural class of the finding: empty overlap list, the exception is the refusal of a
+                # zero-byte shared memory block at allocation, and the labelling kernels are right on the
+                # very same graph (control)
+                structural = isinstance(ex, ValueError) and "size" in str(ex) and control_ok
+                del ex
+            t = None
+            gc.collect()
+        if st is not None:
+            pr = judge_stages(n, root, table, {"stages": [st]})
+            if pr:
+                what = pr[0]
+        if stats is not None:
+            stats["empty_overlap_list_probes"] = stats.get("empty_overlap_list_probes", 0) + 1
+        if what is None:
+            continue
+        what = "%d peaks, no overlaps, table built as goforit() builds it: %s" % (n, what)
+        out.append(what)
+        if chk is not None:
+            if structural and chk.finding(F_SHM) is not None:
+                chk.known_finding(F_SHM, what)
+            else:
+                chk.violation(what, {"kind": "probe", "n": n})
+    return out
+
+
+def observe_outside(chk):
+    """inputs outside the quantifier: what the code does is written down, nothing is judged"""
+    numba, P, threads = load_real()
+    e = np.zeros(0, np.int64)
+    table = L.make_table(0, 1)
+    o = {}
+
+    def attempt(name, f):
+        with hush():
+            try:
+                r = f()
+                o[name] = "returned %s" % (repr(r)[:120],)
+            except Exception as ex:
+                o[name] = "raised %r" % (ex,)
+                del ex
+            r = None
+            gc.collect()
+    attempt("find_ND_labels(e, e, 0)", lambda: P.find_ND_labels(e, e, 0, verbose=0))
+    attempt("pks_table(ipk=[0,0], ...).find_uniq()", lambda: make_pks_table(P, 0, e, e, table).find_uniq())
+    attempt("pks_table(ipk=[0,0], ...).find_uniq(use_scipy=True)",
+            lambda: make_pks_table(P, 0, e, e, table).find_uniq(use_scipy=True))
+
+    def merge0():
+        t = make_pks_table(P, 0, e, e, table)
+        t.find_uniq(use_scipy=True)
+        return t.pk2dmerge(table.omega(), table.dty())
+    attempt("pk2dmerge on the empty table", merge0)
+    attempt("pks_table(npk=[(0, 0, 0)])", lambda: P.pks_table(npk=np.array([(0, 0, 0)])) and "a table")
+
+    def unlabelled():
+        n, ei, ej = 3, np.array([0], np.int64), np.array([1], np.int64)
+        t = make_npk_table(P, n, ei, ej, L.make_table(n, 1), 0)
+        path = tmp_h5()
+        try:
+            t.save(path)
+            return P.pks_table.load(path).nlabel
+        finally:
+            if os.path.exists(path):
+                os.remove(path)
+    attempt("save() before find_uniq, then pks_table.load()", unlabelled)
+    chk.notes["observations"] = {
+        "n = 0 (not judged: the quantifier ranges over graphs, a graph has nodes; the user route cannot even "
+        "allocate an empty table; get_clean_labels reads labels[0] of the empty array)": o}
+
+
+# --------------------------------------------------------------------------------------
+# child processes: thread counts above NUMBA_NUM_THREADS, other threading layers
+
+CHILD = os.path.join(common.VERIF, "harness", "c15_child.py")
+CHILD_FAMILIES = [["merge_race", 120000, 3], ["star", 50000, 1], ["chain_forest", 50000, 1],
+                  ["sinogram", 50000, 1], ["chain_random", 300, 1], ["dups_loops", 20000, 1]]
+
+
+def child_jobs(recs):
+    sd = common.seed()
+    path = os.path.join(common.scratch(), "c15_child_records.json")
+    rng = np.random.default_rng([sd, 1532])
+    sub = [recs[i] for i in sorted(rng.choice(len(recs), min(250, len(recs)), replace=False))] if recs else []
+    with open(path, "w") as f:
+        json.dump(sub, f)
+    base = {"records": path, "families": CHILD_FAMILIES, "seed": sd}
+    return [dict(base, name="threads above the default pool (NUMBA_NUM_THREADS=32)",
+                 env={"NUMBA_NUM_THREADS": "32"}, threads=[17, 24, 32]),
+            dict(base, name="threading layer workqueue", env={"NUMBA_THREADING_LAYER": "workqueue"},
+                 threads=[1, 3, 16]),
+            dict(base, name="threading layer tbb", env={"NUMBA_THREADING_LAYER": "tbb"}, threads=[1, 3, 16],
+                 needs="numba.np.ufunc.tbbpool"),
+            {"name": "properties.main() with worker processes", "kind": "main", "env": {}, "seed": sd, "timeout": 900,
+             "sinograms": [[4, 6, True, 2], [3, 7, False, 2], [5, 5, True, 3], [2, 8, True, 1], [1, 9, False, 1]]}]
+
+
+def spawn_child(job):
+    k = len(os.listdir(common.scratch()))
+    jf = os.path.join(common.scratch(), "c15_job_%d.json" % k)
+    with open(jf, "w") as f:
+        json.dump(job, f)
+    env = dict(os.environ)
+    env.update(job["env"])
+    env["VERIF_SEED"] = str(job["seed"])
+    fo = open(jf + ".out", "w")
+    fe = open(jf + ".err", "w")
+    p = subprocess.Popen([common.PY, CHILD, jf], stdout=fo, stderr=fe, env=env)
+    return {"job": job, "proc": p, "out": jf + ".out", "err": jf + ".err", "files": (fo, fe)}
+
+
+def collect_child(h, timeout=2400):
+    timeout = int(h["job"].get("timeout", timeout))
+    try:
+        h["proc"].wait(timeout=timeout)
+    except subprocess.TimeoutExpired:
+        subprocess.call(["pkill", "-P", str(h["proc"].pid)])
+        h["proc"].kill()
+        h["proc"].wait()
+        with open(h["err"]) as f:
+            err = f.read()
+        if h["job"].get("kind") == "main" and "Traceback" in err:
+            # main() waits for ever on its result queue when a worker process dies: that is an outcome
+            last = [x for x in err.strip().splitlines() if x.strip()][-1]
+            return {"name": h["job"]["name"], "runs": 0,
+                    "problems": ["properties.main() did not return within %d s after a worker process raised: %s"
+                                 % (timeout, last[:200])]}
+        raise common.MachineryError("child %r did not finish in %d s" % (h["job"]["name"], timeout))
+    finally:
+        for f in h["files"]:
+            f.close()
+    res = None
+    with open(h["out"]) as f:
+        for line in f:
+            if line.startswith("@@RESULT "):
+                res = json.loads(line[9:])
+    if res is None:
+        with open(h["err"]) as f:
+            err = f.read()[-2000:]
+        raise common.MachineryError("child %r gave no result (exit %s)\n%s" % (h["job"]["name"], h["proc"].returncode, err))
+    return res
+
+
+def run_child(job):
+    return collect_child(spawn_child(job))
+
+
+def start_children(chk, recs):
+    handles = []
+    skipped = chk.notes.setdefault("children_skipped", {})
+    for job in child_jobs(recs):
+        if job.get("needs"):
+            try:
+                __import__(job["needs"])
+            except Exception as e:
+                skipped[job["name"]] = "not available here: %s" % (str(e)[:150],)
+                continue
+        handles.append(spawn_child(job))
+    return handles
+
+
+def finish_children(chk, handles, stats):
+    out = stats.setdefault("children", {})
+    for h in handles:
+        res = collect_child(h)
+        name = h["job"]["name"]
+        if res.get("skipped"):
+            chk.notes.setdefault("children_skipped", {})[name] = res["skipped"]
+            continue
+        if res.get("error"):
+            if res.get("problems"):
+                pass                      # a broken tree: the problems are reported below
+            else:
+                raise common.MachineryError("child %r failed: %s" % (name, res["error"]))
+        out[name] = {k: res.get(k) for k in ("threads", "numba_num_threads", "threading_layer", "runs", "wall_s",
+                                             "tlc_records_in_unions", "merges", "sinograms") if res.get(k) is not None}
+        chk.traces += int(res.get("runs", 0))
+        for k in range(int(res.get("runs", 0))):
+            chk.case(("child", name, k))
+        for pr in res.get("problems", [])[:3]:
+            job = dict(h["job"])
+            chk.violation("child process (%s): %s" % (name, pr), {"kind": "child", "job": job})
+
+
+def build_sinogram(dirname, sd, ny, nf, zigzag):
+    """a small sparse-pixel file + dataset file (h5py / DataSet.save only): 2x2 blobs on a 3x3 grid of
+    positions, present at random per (row, omega); a blob at the same position in the next frame /
+    the next row at the same omega shares pixels with it.  What overlaps what is decided by the real
+    code (C13 / C14); here only the files are made."""
+    import h5py
+    D = _real["D"]
+    rng = np.random.default_rng([int(sd), ny, nf, 1543])
+    present = rng.random((ny, nf, 9)) < 0.55
+    sparse = os.path.join(dirname, "sparse.h5")
+    omega = np.zeros((ny, nf))
+    dty = np.zeros((ny, nf))
+    with h5py.File(sparse, "w") as h:
+        for i in range(ny):
+            g = h.create_group("%d.1" % (i + 1))
+            oi = np.arange(nf) if (i % 2 == 0 or not zigzag) else np.arange(nf)[::-1]
+            omega[i] = oi * 1.0
+            dty[i] = i * 0.5
+            rows, cols, vals, nnz = [], [], [], []
+            for j in range(nf):
+                k = 0
+                for q in range(9):
+                    if present[i, oi[j], q]:
+                        r0, c0 = 1 + 5 * (q // 3), 1 + 5 * (q % 3)
+                        for (dr, dc, v) in ((0, 0, 10), (0, 1, 20), (1, 0, 30), (1, 1, 90)):
+                            rows.append(r0 + dr)
+                            cols.append(c0 + dc)
+                            vals.append(v + i + q + int(rng.integers(0, 5)))
+                            k += 1
+                nnz.append(k)
+            g.attrs["nframes"] = nf
+            g.attrs["shape0"] = 16
+            g.attrs["shape1"] = 16
+            g["row"] = np.array(rows, np.uint16)
+            g["col"] = np.array(cols, np.uint16)
+            g["intensity"] = np.array(vals, np.uint16)
+            g["nnz"] = np.array(nnz, np.uint32)
+            g["measurement/rot_center"] = omega[i]
+    ds = D.DataSet(dataroot=dirname, analysisroot=dirname)
+    ds.scans = ["%d.1" % (i + 1) for i in range(ny)]
+    ds.shape = (ny, nf)
+    ds.omega = omega
+    ds.dty = dty
+    ds.omega_for_bins = omega % 360
+    ds.sparsefile = sparse
+    ds.pksfile = os.path.join(dirname, "pks.h5")
+    dsfile = os.path.join(dirname, "ds.h5")
+    ds.save(dsfile)
+    return dsfile, ds.pksfile, omega, dty
+
+
+def child_real_main(job, res):
+    """the literal user route: properties.main(dsfile) = goforit() -> worker processes running process()
+    -> pks_table(npk) in shared memory -> find_uniq() -> save(pksfile); then dataset.load(dsfile).pk2d /
+    .pk4d.  The overlap list is taken as process() wrote it (captured when save() is entered); judged:
+    the saved labels are its connected components, the merged table the exact sums of the saved 2D table."""
+    numba, P, _ = load_real()
+    D = _real["D"]
+    sd = int(job["seed"])
+    captured = []
+    o_save = P.pks_table.save
+
+    def save(self, h5name, *a, **k):
+        captured.append((h5name, None if self.rc is None else np.array(self.rc)))
+        return o_save(self, h5name, *a, **k)
+    P.pks_table.save = save
+    try:
+        for k, (ny, nf, zig, nproc) in enumerate(job["sinograms"]):
+            d = os.path.join(common.scratch(), "sino_%d" % k)
+            os.makedirs(d)
+            with hush():
+                dsfile, pksfile, omega, dty = build_sinogram(d, sd + k, ny, nf, zig)
+            what = "properties.main on a %dx%d sinogram (seed %d, zigzag=%s, nproc=%d)" % (ny, nf, sd + k, zig, nproc)
+            del captured[:]
+            try:
+                with hush():
+                    P.main(dsfile, options={"nproc": nproc})
+                    t = P.pks_table.load(pksfile)
+                    rc = [c for c in captured if c[0] == pksfile][-1][1]
+                    n = int(t.ipk[-1])
+                    nl, lab, props = int(t.nlabel), np.array(t.glabel), np.array(t.pk_props)
+            except Exception as e:
+                res["problems"].append("%s raised %r" % (what, e))
+                continue
+            ei, ej = rc[0].astype(np.int64), rc[1].astype(np.int64)
+            root = L.roots_unionfind(n, ei, ej)
+            mon = 2.0 ** np.random.default_rng([sd, k, 7]).integers(-1, 3, omega.shape)
+            table = L.Table(props, omega.shape, omega.astype(np.int64), 1, (2 * dty).astype(np.int64), 2,
+                            (8 / mon).astype(np.int64), 8)
+            pr, _ = L.judge_labels(n, root, nl, lab)
+            pr = ["saved labels: %s" % x for x in pr]
+            if not pr:
+                with hush():
+                    dsu, dss = D.load(dsfile), D.load(dsfile)
+                    dss.monitor, dss.monitor_ref = mon, 1.0
+                    st = {"name": "main+dataset.load", "attrs": (int(dsu.peaks_table.nlabel), np.array(dsu.peaks_table.glabel)),
+                          "merge_u": copy_dict(dsu.pk4d), "merge_s": copy_dict(dss.pk4d),
+                          "pk2d_u": copy_dict(dsu.pk2d), "pk2d_s": copy_dict(dss.pk2d)}
+                pr = judge_stages(n, root, table, {"stages": [st]})
+            res["runs"] += 1
+            res.setdefault("sinograms", []).append({"scans": ny, "frames": nf, "nproc": nproc, "peaks_2d": n,
+                                                    "overlap_pairs": int(len(ei)), "merged_peaks": nl,
+                                                    "merged_peaks_with_2_or_more_members":
+                                                    int((np.bincount(lab, minlength=max(nl, 1)) > 1).sum()) if n else 0})
+            if pr:
+                res["problems"].append("%s: %s" % (what, pr[0]))
+    finally:
+        P.pks_table.save = o_save
+
+
+def child_main(jobfile):
+    """runs inside the child (harness/c15_child.py): judged here, one JSON line back"""
+    import traceback
+    with open(jobfile) as f:
+        job = json.load(f)
+    res = {"name": job["name"], "problems": [], "runs": 0, "merges": 0}
+    t0 = time.time()
+    if job.get("kind") == "main":
+        try:
+            child_real_main(job, res)
+        except Exception as e:
+            res["error"] = "%r\n%s" % (e, traceback.format_exc()[-1500:])
+        res["wall_s"] = round(time.time() - t0, 1)
+        print("@@RESULT " + json.dumps(res))
+        sys.stdout.flush()
+        return
+    try:
+        numba, P, _ = load_real()
+        tl = [t for t in job["threads"] if t <= numba.config.NUMBA_NUM_THREADS]
+        res["threads"] = tl
+        res["numba_num_threads"] = int(numba.config.NUMBA_NUM_THREADS)
+        recs = []
+        if job.get("records"):
+            with open(job["records"]) as f:
+                recs = json.load(f)
+        res["tlc_records_in_unions"] = len(recs)
+        sd = int(job["seed"])
+        work = []
+        for interleave in (False, True):
+            if recs:
+                n, ei, ej, offs, root, table = union_instance(recs, interleave)
+                work.append(("union of %d TLC instances (interleave=%s)" % (len(recs), interleave), n, ei, ej, root, table, 1))
+        for fam, n0, mreps in job["families"]:
+            n, ei, ej = L.make_instance(fam, n0, sd)
+            work.append(("%s n=%d seed=%d" % (fam, n, sd), n, ei, ej, L.roots_unionfind(n, ei, ej),
+                         L.make_table(n, sd), int(mreps)))
+        for what, n, ei, ej, root, table, mreps in work:
+            for t in tl:
+                with numba_threads(numba, t):
+                    obs = observe(P, n, ei, ej, table, scipy_route=False, merge_reps=mreps)
+                    pr = judge(n, root, table, obs)
+                    if not pr and t == tl[-1]:
+                        ho = observe_hist(n, ei, ej, table, SEEDED_HISTS[0], sd=sd, via_dataset=True)
+                        pr = judge_stages(n, root, table, ho)
+                res["runs"] += 1
+                res["merges"] += 2 * mreps
+                if pr:
+                    res["problems"].append("%s threads=%d: %s" % (what, t, pr[0]))
+                    break
+            if len(res["problems"]) >= 3:
+                break
+        res["threading_layer"] = numba.threading_layer()
+    except Exception as e:
+        msg = "%r" % (e,)
+        if "threading layer" in msg.lower() or "threading_layer" in msg.lower():
+            res["skipped"] = "threading layer not usable here: %s" % msg[:300]
+        else:
+            res["error"] = msg + "\n" + traceback.format_exc()[-1500:]
+    res["wall_s"] = round(time.time() - t0, 1)
+    print("@@RESULT " + json.dumps(res))
+    sys.stdout.flush()
+
 # --------------------------------------------------------------------------------------
 # self-test of the binding
 
@@ -744,6 +1580,23 @@ def synthetic_obs(n, root, table):
                     "omega": table.omega().flat[frm], "dty": table.dty().flat[frm], "Number_of_pixels": s1,
                     "sum_intensity": sI * table.scale().flat[frm] if scaled else sI, "spot3d_id": lab.copy()}
     return obs
+
+
+def synthetic_merge_f(ft, lab, nl, scaled):
+    """what a correct pk2dmerge returns for a general value table (from the exact integers)"""
+    from fractions import Fraction
+    ex = L.merged_exact_f(ft, lab, nl, scaled)
+    num, den = ex["num"], ex["den"]
+
+    def mean(r, j):
+        if num[1][j] == 0:
+            return float("nan")
+        return float(Fraction(num[r][j] * den[1], num[1][j] * den[r]))
+    return {"Number_of_pixels": np.array([x / den[0] for x in num[0]]),
+            "sum_intensity": np.array([x / den[1] for x in num[1]]),
+            "npk2d": np.array([float(x) for x in num[6]]), "spot3d_id": np.arange(nl),
+            "s_raw": np.array([mean(2, j) for j in range(nl)]), "f_raw": np.array([mean(3, j) for j in range(nl)]),
+            "omega": np.array([mean(4, j) for j in range(nl)]), "dty": np.array([mean(5, j) for j in range(nl)])}
 
 
 def synthetic_trace(tid, n, ei, ej, root):
@@ -825,6 +1678,60 @@ def selftest(full=True):
     o2["pk2d_s"] = p
     if not judge(n, root, table, o2):
         raise common.MachineryError("selftest: pk2d without the scale factor accepted as scaled")
+    # (2b) histories: after a renumbering the merged table must follow the labels the table holds NOW
+    perm = (nl - 1) - lab
+    if nl < 2:
+        raise common.MachineryError("selftest: instance with one component")
+
+    def permuted(m):
+        return {k: (np.asarray(v)[::-1].copy() if k != "spot3d_id" else np.asarray(v)) for k, v in m.items()}
+    good = {"name": "find_uniq+scipy", "attrs": (nl, perm.astype(np.int32)),
+            "merge_u": permuted(obs["merge_u"]), "merge_s": permuted(obs["merge_s"]),
+            "pk2d_u": dict(obs["pk2d_u"], spot3d_id=perm), "pk2d_s": dict(obs["pk2d_s"], spot3d_id=perm)}
+    if judge_stages(n, root, table, {"stages": [good]}):
+        raise common.MachineryError("selftest: a correct renumbered stage was rejected: %s"
+                                    % judge_stages(n, root, table, {"stages": [good]}))
+    stale = dict(good, merge_u=obs["merge_u"], merge_s=obs["merge_s"])
+    if not judge_stages(n, root, table, {"stages": [good, stale]}):
+        raise common.MachineryError("selftest: a merged table computed from the previous labels was accepted")
+    stale = dict(good, pk2d_s=obs["pk2d_s"])
+    if not judge_stages(n, root, table, {"stages": [stale]}):
+        raise common.MachineryError("selftest: pk2d with the previous labels was accepted")
+    if not judge_stages(n, root, table, {"stages": [dict(good, returned=(nl, lab))]}):
+        raise common.MachineryError("selftest: find_uniq returning other labels than the table holds was accepted")
+    if not judge_stages(n, root, table, {"stages": [good], "exc": "saveload raised KeyError"}):
+        raise common.MachineryError("selftest: an exception during a history was not reported")
+    # (2c) general value tables (exact integer arithmetic on the binary values of the inputs)
+    n2, ei2, ej2 = L.make_instance("vclass", 400, 7)
+    root2 = L.roots_unionfind(n2, ei2, ej2)
+    nl2, lab2 = L.expected_labels(root2)
+    nvt = 0
+    for kind, lay in (("wide", "mixA"), ("zero", "mixB"), ("monitor", "C64")):
+        ft = L.make_vtable(kind, n2, 7, root2, lay)
+        for scaled in (False, True):
+            m = synthetic_merge_f(ft, lab2, nl2, scaled)
+            pr = L.judge_merge(ft, lab2, nl2, scaled, m)
+            if pr:
+                raise common.MachineryError("selftest: exact merged table rejected (%s): %s" % (ft.kind, pr[0]))
+            j = int(np.argmax(np.isfinite(m["omega"]) & (np.bincount(lab2, minlength=nl2) > 1)))
+            for name in ("Number_of_pixels", "sum_intensity", "s_raw", "f_raw", "omega", "dty", "npk2d"):
+                m2 = {k: np.array(v, float) for k, v in m.items()}
+                m2[name][j] += 1e-6 * (1.0 + abs(m2[name][j]))
+                if not L.judge_merge(ft, lab2, nl2, scaled, m2):
+                    raise common.MachineryError("selftest: perturbed %s of a general value table accepted (%s)"
+                                                % (name, ft.kind))
+                nvt += 1
+        pk = {"s_raw": ft.props[2] / ft.props[1].astype(float), "f_raw": ft.props[3] / ft.props[1].astype(float),
+              "omega": ft.flat64("om")[ft.props[4]], "dty": ft.flat64("dty")[ft.props[4]],
+              "Number_of_pixels": ft.props[0], "sum_intensity": ft.props[1] * ft.flat64("sc")[ft.props[4]],
+              "spot3d_id": lab2}
+        if L.judge_pk2d(ft, lab2, True, pk):
+            raise common.MachineryError("selftest: correct pk2d of a general value table rejected: %s"
+                                        % L.judge_pk2d(ft, lab2, True, pk))
+        # the transposed (Fortran-order) reading of the frame index must be rejected
+        wrong = dict(pk, omega=np.asarray(ft.omega(), float).ravel(order="F")[ft.props[4]])
+        if not L.judge_pk2d(ft, lab2, True, wrong):
+            raise common.MachineryError("selftest: omega read in Fortran order accepted")
     # (3) trace specification: the recorded trace is accepted, corrupted copies are rejected
     n, ei, ej = L.make_instance("chain_random", 12, 5)
     tr = synthetic_trace(1, n, ei, ej, L.roots_unionfind(n, ei, ej))
@@ -853,6 +1760,7 @@ def selftest(full=True):
         if verdicts.get(c["tid"], {}).get("verdict") != "reject":
             raise common.MachineryError("selftest: corrupted trace %d accepted: %s" % (c["tid"], verdicts.get(c["tid"])))
     out = {"label_perturbations_rejected": 5, "merge_perturbations_rejected": 16,
+           "stale_merge_after_renumbering_rejected": 3, "general_value_table_perturbations_rejected": nvt,
            "corrupted_traces_rejected": {c["tid"]: verdicts[c["tid"]]["clause"] for c in bad}}
     # (4) the invariants have teeth: wrong variants of the sweep are refuted by TLC; the race is in the model
     if full:
@@ -864,6 +1772,8 @@ def selftest(full=True):
         out["bugonelive"] = r.violated
         r = tlc(None, "lost", 300, expect=("NeverRaises",))
         out["lost_update_witness"] = r.violated
+        r = tlc(None, "bugpmerge", 300, expect=("MergeOK",))
+        out["bugpmerge"] = r.violated
     return out
 
 
@@ -874,7 +1784,11 @@ def run(tier, replay=None):
     if replay:
         with open(replay) as f:
             case = json.load(f)["case"]
-        probs = run_case(case)
+        if case.get("kind") == "probe":
+            probe_empty(chk, {})          # reports through the finding matcher itself
+            probs = []
+        else:
+            probs = run_case(case)
         if probs:
             chk.violation("replay: %s" % probs[0], case)
         chk.rule = "replay of one saved case"
@@ -886,24 +1800,30 @@ def run(tier, replay=None):
     thorough = tier == "thorough"
 
     # ---- TLC -------------------------------------------------------------------------
-    runs = [("seq", 600, thorough), ("q2", 900, thorough)]
+    runs = [("seq", 600, thorough), ("hist", 600, thorough), ("q2", 900, thorough)]
     if thorough:
         runs += [("t3", 900, False), ("tree5", 1200, False), ("static", 900, False), ("ord", 1200, False),
                  ("e4", 1800, False), ("live", 1200, False)]
-    recs = {"seq": [], "tree5": []}
+    recs = {"seq": [], "tree5": [], "hist": []}
+    children = []
     for name, to, cov in runs:
-        res = tlc(chk, name, to, coverage=cov)
+        res = tlc(chk, name, to, coverage=cov, cover=(ACTIONS + HIST_ACTIONS if name == "hist" else ACTIONS))
         if res.violated:
             model_counterexample(chk, name, res)
             continue
-        if name in recs:
+        if name == "hist":
+            recs[name] = parse_hist_records(res)
+        elif name in recs:
             recs[name] = parse_records(res, name)
+        if name == "seq" and not chk.violations:
+            # the children (other numba configurations) compile and run while TLC and the parent go on
+            children = start_children(chk, recs["seq"])
     if thorough:
         res = tlc(chk, "lost", 300, expect=("NeverRaises",))
         chk.notes["lost_update_witness"] = "NeverRaises refuted by TLC in %d states (the race is in the model)" % res.states
-    nexp = {"seq": 5278, "tree5": 125}
+    nexp = {"seq": 5278, "tree5": 125, "hist": 2185}
     for k, v in recs.items():
-        if (k == "seq" or thorough) and len(v) != nexp[k]:
+        if (k in ("seq", "hist") or thorough) and len(v) != nexp[k]:
             raise common.MachineryError("TLC configuration %s emitted %d instances, expected %d" % (k, len(v), nexp[k]))
 
     # ---- binding ---------------------------------------------------------------------
@@ -912,32 +1832,49 @@ def run(tier, replay=None):
     chk.notes["threading_layer_priority"] = list(numba.config.THREADING_LAYER_PRIORITY)
     allrecs = recs["seq"] + recs["tree5"]
     chk.notes["tlc_instances"] = classify(allrecs)
-    replay_records(chk, allrecs, tier, stats, budget_s=(10 if tier == "quick" else 90))
+    chk.notes["tlc_histories"] = {"records": len(recs["hist"]),
+                                  "distinct_histories": len(set(tuple(r["hist"]) for r in recs["hist"])),
+                                  "with_scipy_numbering_not_ranked": sum(1 for r in recs["hist"] if not r["ranked"])}
+    replay_records(chk, allrecs, tier, stats, budget_s=(15 if tier == "quick" else 120))
     try:
         chk.notes["threading_layer"] = numba.threading_layer()
     except Exception:
         pass
-    if chk.violations:
+    if not chk.violations:
+        replay_hist(chk, recs["hist"], tier, stats, budget_s=12)
+    probe_empty(chk, stats)
+    observe_outside(chk)
+    if [w for w, _ in chk.violations if "no overlaps" not in w]:
         stats["seeded_skipped"] = "small instances already violate the property"
     else:
         seeded(chk, tier, stats)
     mode_c(chk, tier, recs["seq"], recs["tree5"], stats)
+    finish_children(chk, children, stats)
     if thorough:
         chk.notes["selftest"] = selftest(full=True)
     else:
         chk.notes["selftest"] = selftest(full=False)
 
     chk.notes["binding"] = stats
-    chk.notes["tolerance"] = "|x-e| <= 1e-9*max|e| + 1e-12 against exact integer / rational expectations"
+    chk.notes["tolerance"] = ("|x-e| <= 1e-9*max|e| + 1e-12 against exact integer / rational expectations (dyadic "
+                              "tables); general value tables: sums |x-e| <= 1e-9*|e| + 1e-12, means |x-m| <= "
+                              "1e-9*(sum|terms|/weight + |m|) + 1e-12 with e, m, sum|terms| from exact integer "
+                              "arithmetic on the binary values of the inputs")
     chk.rule = ("every instance emitted by TLC (all edge lists <= 4 nodes / <= 3 positions%s) replayed through "
                 "find_ND_labels, pks_table.find_uniq (numba, scipy), pk2dmerge (+scale_factor), pk2d at numba threads %s "
-                "(individually and as disjoint unions); seeded families up to %s nodes; recorded sweeps validated by "
-                "LabelND_Trace.  non-trivial = has edges and at least one merge"
+                "(individually and as disjoint unions); every (instance, history) of configuration hist (<= 3 nodes, "
+                "<= 2 operations out of find_uniq again / scipy / save+load / merge again) on a table built by the "
+                "shared-memory user route, judged after every operation; seeded families up to %s nodes incl. two "
+                "histories each, interleaved stars merged repeatedly, general value tables; child processes for "
+                "17/24/32 threads and the workqueue layer; recorded sweeps validated by LabelND_Trace.  "
+                "non-trivial = has edges and at least one merge"
                 % (", all 5-node spanning trees" if thorough else "", threads, "1e6" if thorough else "2e5"))
     chk.assumptions = [
         "sequential consistency per aligned int64 load/store of the label array (no tearing, no store buffering effects)",
         "the prange barrier at the end of each sweep makes all stores visible before the next sweep",
         "real interleavings are unobservable: bound by outcomes at thread counts %s and by per-sweep snapshots" % threads,
+        "the overlap list rc is taken as given (producing it from sparse pixels is C13 / C14); process() itself is "
+        "emulated: the shared-memory table, the per-scan fill through fromSHM, find_uniq, save are the real code",
     ]
     chk.exhaustive = True
     return chk.finish()
